@@ -176,6 +176,79 @@ func scopeType(depth int, which string) []*SrcPkg {
 	return p.pkgs
 }
 
+// identTypes: types several of which are identical (types.Identical) although they are
+// spelled through different packages, alias declarations or interface literals.
+var identTypes = []string{
+	"@{~/a/foo}.T", "@{~/al/legacy}.T", "@{~/a/foo}.A", "*@{~/a/foo}.T", "*@{~/al/legacy}.T",
+	"@{~/a/foo}.I", "@{~/al/legacy}.I", "interface{ @{~/al/legacy}.I }", "interface{ @{~/a/foo}.I }", "interface{ Do(@{~/a/foo}.T) @{~/a/foo}.T }",
+	"@{~/al/legacy}.Fn", "func(@{~/a/foo}.T) @{~/a/foo}.T", "func(@{~/al/legacy}.T) @{~/a/foo}.A", "@{~/a/foo}.F",
+	"Loc", "LocAlias", "any", "interface{}", "byte", "uint8", "[]@{~/a/foo}.T", "[]@{~/al/legacy}.T",
+	"map[string]@{~/al/legacy}.T", "map[string]@{~/a/foo}.T", "@{~/b/foo}.G[@{~/a/foo}.T]", "@{~/b/foo}.G[@{~/al/legacy}.T]", "Box[@{~/al/legacy}.T]", "Box[@{~/a/foo}.T]",
+}
+
+// scopeTyPair: all ordered pairs of identTypes as (parameter, parameter) and (parameter,
+// result) of one method: both variables live in one method scope, so anything remembered
+// per type (rather than per spelling) shows.
+func scopeTyPair() []*SrcPkg {
+	p := newPacker("typair", 64)
+	k := 0
+	for _, t1 := range identTypes {
+		for _, t2 := range identTypes {
+			tags := []string{"ty:" + t1, "ty2:" + t2}
+			p.add(IfaceCase{Name: fmt.Sprintf("Q%d", k), Tags: append([]string{"pat:pp"}, tags...), Scope: "S-typair"},
+				fmt.Sprintf("type Q%d interface{ M(a %s, b %s) }", k, t1, t2))
+			k++
+			p.add(IfaceCase{Name: fmt.Sprintf("Q%d", k), Tags: append([]string{"pat:pr"}, tags...), Scope: "S-typair"},
+				fmt.Sprintf("type Q%d interface{ M(a %s) %s }", k, t1, t2))
+			k++
+		}
+	}
+	return p.pkgs
+}
+
+// scopeCross: two same-named packages (a/foo, b/foo) that meet in one signature without
+// any source alias: the method is declared by a generic interface in a file that imports
+// a/foo and instantiated with a b/foo type in another file; a/foo has already reached the
+// registry through an earlier method (A sorts before M). All triples of parameter names
+// around the generated aliases (afoo, bfoo) x the four orders of the three types.
+func scopeCross() []*SrcPkg {
+	names := []string{"", "foo", "afoo", "bfoo", "x", "afooMoqParam"}
+	pats := [][3]string{{"int", "X", "@{~/a/foo}.T"}, {"X", "int", "@{~/a/foo}.T"}, {"@{~/a/foo}.T", "int", "X"}, {"int", "@{~/a/foo}.T", "X"}}
+	var pkgs []*SrcPkg
+	for pi, pat := range pats {
+		sp := &SrcPkg{Dir: fmt.Sprintf("s/cross_%d", pi), Name: "src"}
+		f0 := "type E0 interface{ A(@{~/a/foo}.T) }\n"
+		f1 := ""
+		k := 0
+		dup := func(a, b string) bool { return a == b && a != "" }
+		for _, n1 := range names {
+			for _, n2 := range names {
+				for _, n3 := range names {
+					if dup(n1, n2) || dup(n1, n3) || dup(n2, n3) {
+						continue
+					}
+					named := n1 != "" || n2 != "" || n3 != ""
+					sig := fmt.Sprintf("M(%s, %s, %s)", paramDecl(n1, pat[0], named), paramDecl(n2, pat[1], named), paramDecl(n3, pat[2], named))
+					f0 += fmt.Sprintf("type Gx%d[X any] interface{ %s }\n", k, sig)
+					f1 += fmt.Sprintf("type C%d interface{ E0; Gx%d[@{~/b/foo}.T] }\n", k, k)
+					tags := []string{fmt.Sprintf("pat:cross%d", pi), "cross:" + n1 + "," + n2 + "," + n3, "cpos0:" + n1, "cpos1:" + n2, "cpos2:" + n3, nameTag(n1), nameTag(n2), nameTag(n3), "imp:~/a/foo", "imp:~/b/foo"}
+					if pat[2] == "X" && (n1 == "afoo" || n2 == "afoo") {
+						// a parameter called afoo is allocated while a/foo is still called foo; b/foo arrives last
+						tags = append(tags, "cross:afoo-named-before-realias")
+					}
+					sp.Ifaces = append(sp.Ifaces, IfaceCase{Name: fmt.Sprintf("C%d", k), Scope: "S-cross",
+						Src:  fmt.Sprintf("f0.go (imports a/foo): type E0 interface{ A(foo.T) }; type Gx%d[X any] interface{ %s } / f1.go (imports b/foo): type C%d interface{ E0; Gx%d[foo.T] }", k, sig, k, k),
+						Tags: tags})
+					k++
+				}
+			}
+		}
+		sp.Files = []SrcFile{{Name: "f0.go", Decls: f0}, {Name: "f1.go", Decls: f1}}
+		pkgs = append(pkgs, sp)
+	}
+	return pkgs
+}
+
 // Name alphabet N (DESIGN §2.2).
 var nameAlphabet = []string{
 	"", "_", "x", "X", "id", "iD", "url", "_x", "x1",
